@@ -402,6 +402,21 @@ fn eval_dna(dna_bytes: &[u8], ctx: &mut Ctx) -> Result<(), (Failure, Value)> {
         ctx.set_inflight(&doc);
         check(&case.bytes, &v, est.as_deref(), "no-dictionary", ctx).map_err(|f| (f, doc))?;
     }
+    // 4. a two-table hash (libdeflate's 3-byte head + 4-byte chain) on the base vector: the only
+    //    chain iterators that can report one position twice
+    {
+        let mut v = base.clone();
+        v[P_HASH_ALGORITHM] = if vd.chance(25) { 4 } else { 3 };
+        v[P_HASH_SHIFT] = 0;
+        v[P_HASH_MASK] = 0;
+        v[P_MAX_CHAIN] = [16u32, 64, 256, 4096][vd.below(4)];
+        if vd.chance(50) {
+            v[P_NICE_LENGTH] = 258;
+        }
+        let doc = mk_doc(&case.bytes, &v, "two-table-hash");
+        ctx.set_inflight(&doc);
+        check(&case.bytes, &v, est.as_deref(), "two-table-hash", ctx).map_err(|f| (f, doc))?;
+    }
     ctx.sample(|| sample_bytes(&case.desc, &case.bytes, json!({"estimate": est})));
     Ok(())
 }
